@@ -69,8 +69,12 @@ type Ev struct {
 	RInit   []Ev             `json:"init,omitempty"`
 	Tag     string           `json:"tag,omitempty"`
 
+	// StartBatch only: the requests listed by the sub-step's new_batch_request event, in order
+	EvReqs []EvReq `json:"evreqs"`
+
 	// observation events
 	Obs *Observation `json:"obs,omitempty"`
+	Gen *GenObs      `json:"gen,omitempty"`
 }
 
 const (
@@ -127,6 +131,9 @@ func ctxState(s string) types.RequestContextState {
 func (c *Chain) normalise(e *Ev) {
 	if e.Provs == nil {
 		e.Provs = []string{}
+	}
+	if e.EvReqs == nil {
+		e.EvReqs = []EvReq{}
 	}
 	if e.Pr.PT == nil {
 		e.Pr.PT = []PromoT{}
